@@ -56,7 +56,7 @@ def _sync_src(dst, repo=REPO):
 def mir_dump(repo=REPO, log=None):
     """Returns (path of MIR dump, seconds).  Cached per source-tree hash."""
     th = tree_hash(repo)
-    out = os.path.join(SCRATCH, 'mir', 'crate-%s.mir' % th)
+    out = os.path.join(SCRATCH, 'mir', 'crate-%s-v2.mir' % th)
     with Lock('mir'):
         if os.path.exists(out) and os.path.getsize(out) > 1000:
             return out, 0.0
@@ -73,7 +73,7 @@ def mir_dump(repo=REPO, log=None):
         tmp = out + '.tmp'
         with open(tmp, 'w') as fo:
             p = subprocess.run(['cargo', '+nightly', 'rustc', '--offline', '--lib', '--', '-Zunpretty=mir',
-                                '-C', 'overflow-checks=on', '-Awarnings'], cwd=src, env=env, stdout=fo,
+                                '-C', 'overflow-checks=on', '-C', 'debug-assertions=off', '-Awarnings'], cwd=src, env=env, stdout=fo,
                                stderr=subprocess.PIPE, text=True)
         shutil.rmtree(src, ignore_errors=True)
         if p.returncode != 0 or os.path.getsize(tmp) < 1000:
